@@ -425,8 +425,10 @@ inline djinterop::track_snapshot gen_snapshot(uint64_t seed, int size,
     {
         static const unsigned long long cs[] = {0ull, 1ull, 44100ull * 200,
                                                 48000ull * 3600, 1ull << 40,
-                                                (1ull << 53) + 1, 16061375ull};
-        s.sample_count = cs[r.below(7)];
+                                                (1ull << 53) + 1, 16061375ull,
+                                                // the edges of the signed 64-bit field the count is stored in
+                                                (1ull << 63) - 1, (1ull << 63) + 5, ~0ull};
+        s.sample_count = cs[r.chance(1, 8) ? 7 + r.below(3) : r.below(7)];
     }
     if (r.chance(2, 3))
         s.track_number = gen_int(r);
